@@ -931,13 +931,13 @@ namespace Pistache::Async
 
         Rejection clone() { return Rejection(core_); }
 
-    private:
         // an exception that is already captured (whenAll / whenAny forwarding the rejection of
         // an input, a handler passing on what it received) is forwarded as it is, not wrapped
         template <typename Exc>
         static std::exception_ptr toExceptionPtr(Exc exc) { return std::make_exception_ptr(exc); }
         static std::exception_ptr toExceptionPtr(std::exception_ptr exc) { return exc; }
 
+    private:
         std::shared_ptr<Private::Core> core_;
     };
 
@@ -1105,7 +1105,7 @@ namespace Pistache::Async
         static Promise<T> rejected(Exc exc)
         {
             auto core   = std::make_shared<Core>();
-            core->exc   = std::make_exception_ptr(exc);
+            core->exc   = Rejection::toExceptionPtr(std::move(exc));
             core->state = State::Rejected;
             return Promise<T>(std::move(core));
         }
